@@ -1,5 +1,10 @@
 import Gama.Proto
 import Gama.Model.GaussNewton
+import Gama.Model.AcordAzimuth
+import Gama.Model.AcordHdiffVector
+import Gama.Model.AcordZderived
+import Gama.Model.PointId
+import Gama.Model.LinTypes
 open Gama Gama.Proto Gama.Cogo
 
 /-- numeric tokens: hex doubles, or decimal naturals (counts / flags) -/
@@ -59,11 +64,137 @@ def refineOp (ts : List String) : String := Id.run do
       s!"{g.1} {showFloat p.x} {showFloat p.y} {showFloat p.z}")
   return "new " ++ " | ".intercalate outs
 
+
+/-! ## `acord` stream: one Acord2 strategy step on a small network (see harness/c06_cogo.cpp::run_acord) -/
+section AcordStream
+open Gama.Acord
+
+abbrev PID := PointId.PointID
+def pid (s : String) : PID := PointId.init s.toUTF8.toList
+
+structure ACase where
+  ids : List String := []                                  -- order of first appearance
+  pts : List (PID × LP Float × Bool × Bool) := []
+  od : List (Cluster PID Float) := []                      -- reversed; the open cluster is the head
+
+def ACase.note (c : ACase) (id : String) : ACase :=
+  if c.ids.contains id then c else { c with ids := c.ids ++ [id] }
+
+/-- append an observation to the open cluster (`none`: no cluster open / wrong cluster class) -/
+def ACase.addSp (c : ACase) (o : Obs PID Float) : Option ACase :=
+  match c.od with
+  | .standpoint s obs :: rest => some { c with od := .standpoint s (obs ++ [o]) :: rest }
+  | .hdiffs _ :: _ => none
+  | .vectors _ :: _ => none
+  | [] => none
+
+def parseAcord : Nat → List String → ACase → Option ACase
+  | 0, _, _ => none
+  | _, [], c => some c
+  | n + 1, "P" :: id :: bxy :: x :: y :: bz :: z :: axy :: az :: rest, c =>
+    match num? x, num? y, num? z with
+    | some x, some y, some z =>
+      let p : LP Float := ⟨if bxy != "0" then x else 0, if bxy != "0" then y else 0, if bz != "0" then z else 0,
+                           bxy != "0", bz != "0"⟩
+      parseAcord n rest { (c.note id) with pts := c.pts ++ [(pid id, p, axy != "0", az != "0")] }
+    | _, _, _ => none
+  | n + 1, "S" :: st :: rest, c => parseAcord n rest { (c.note st) with od := .standpoint (pid st) [] :: c.od }
+  | n + 1, "H" :: rest, c => parseAcord n rest { c with od := .hdiffs [] :: c.od }
+  | n + 1, "V" :: rest, c => parseAcord n rest { c with od := .vectors [] :: c.od }
+  | n + 1, k :: f :: t :: v :: rest, c =>
+    match num? v with
+    | none => none
+    | some v =>
+      let c := (c.note f).note t
+      let f := pid f
+      let t := pid t
+      if k == "sd" || k == "za" then
+        match rest with
+        | a :: b :: rest =>
+          match num? a, num? b with
+          | some a, some b =>
+            match c.addSp (if k == "sd" then .sdistance f t v a b else .zangle f t v a b) with
+            | some c => parseAcord n rest c
+            | none => none
+          | _, _ => none
+        | _ => none
+      else
+        let c' : Option ACase :=
+          match k, c.od with
+          | "az", _ => c.addSp (.azimuth f t v)
+          | "d", _ => c.addSp (.distance f t v)
+          | "dir", _ => c.addSp (.other f t)
+          -- the harness adds whatever class the record names to whatever cluster is open; the generator
+          -- only puts hd into H and dx/dy/dz into V clusters (other placements are `bad-op` here)
+          | "hd", .hdiffs obs :: r => some { c with od := .hdiffs (obs ++ [(f, t, v)]) :: r }
+          | "dx", .vectors obs :: r => some { c with od := .vectors (obs ++ [.xdiff f t v]) :: r }
+          | "dy", .vectors obs :: r => some { c with od := .vectors (obs ++ [.ydiff f t v]) :: r }
+          | "dz", .vectors obs :: r => some { c with od := .vectors (obs ++ [.zdiff f t v]) :: r }
+          | _, _ => none
+        match c' with
+        | some c => parseAcord n rest c
+        | none => none
+  | _, _, _ => none
+
+def showPts (ids : List String) (st : St PID Float) : List String :=
+  ids.map (fun id =>
+    let p := st.pd (pid id)
+    let b (x : Bool) := if x then "1" else "0"
+    s!"pt {id} {b p.bxy} {showFloat (if p.bxy then p.x else 0)} {showFloat (if p.bxy then p.y else 0)} {b p.bz} {showFloat (if p.bz then p.z else 0)} {b (st.missXY.contains (pid id))} {b (st.missZ.contains (pid id))}")
+
+def showCands (ids : List String) (cand : List (PID × Float)) : List String :=
+  ids.filterMap (fun id =>
+    let vs := (cand.filter (fun c => decide (c.1 = pid id))).map (·.2)
+    if vs.isEmpty then none else some (s!"cand {id}" ++ vs.foldl (fun a v => a ++ " " ++ showFloat v) ""))
+
+def acordOp (ts : List String) : String :=
+  match ts with
+  | alg :: reps :: cs :: rh :: rest =>
+    match reps.toNat?, cs.toNat? >>= Lin.CS.ofNat?, parseAcord (rest.length + 1) rest {} with
+    | some reps, some cs, some c =>
+      let od := c.od.reverse
+      let xN : Float := Lin.xNorthAngle cs (rh != "0")
+      let pd : PD PID Float := fun i => match c.pts.reverse.find? (fun p => decide (p.1 = i)) with
+        | some p => p.2.1 | none => LP.unset
+      -- the map holds one entry per id: a repeated `P` record overwrites (`PD[id] = p`)
+      let last := c.pts.filter (fun p => match c.pts.reverse.find? (fun q => decide (q.1 = p.1)) with
+        | some q => q.2.2.1 == p.2.2.1 && q.2.2.2 == p.2.2.2 && q.2.1.bxy == p.2.1.bxy && q.2.1.bz == p.2.1.bz | none => false)
+      let st0 : St PID Float := ⟨pd, dedup (missingXY last), dedup (missingZ last), []⟩
+      let fuel := 2 * (c.ids.length + 2)
+      let out : Option (List String × St PID Float × Bool) :=
+        match alg with
+        | "azimuth" =>
+          let r := (List.range reps).foldl (fun (as : AzAlg PID Float × St PID Float) _ =>
+            azExecute PointId.lt xN od as.1 as.2) (AzAlg.fresh, st0)
+          some ([], r.2, r.1.completed)
+        | "hdiff" =>
+          (List.range reps).foldlM (fun (as : HdAlg PID Float × St PID Float) _ =>
+            hdExecute fuel od as.1 as.2) (HdAlg.fresh, st0) |>.map (fun r => ([], r.2, r.1.completed))
+        | "vector" =>
+          (List.range reps).foldlM (fun (as : VecAlg PID Float × St PID Float) _ =>
+            vecExecute fuel od as.1 as.2) (VecAlg.fresh, st0) |>.map (fun r => ([], r.2, r.1.completed))
+        | "zderived" =>
+          let r := (List.range reps).foldl (fun (x : List String × ZdAlg × St PID Float) _ =>
+            let e := zdExecute od x.2.1 x.2.2
+            let st := getMediansZ e.2
+            (x.1 ++ showCands c.ids e.2.candZ, e.1, { st with candZ := [] })) ([], ZdAlg.fresh, st0)
+          some (r.1, r.2.2, r.2.1.completed)
+        | _ => none
+      match out with
+      | some (pre, st, done) =>
+        "\n".intercalate (pre ++ showPts c.ids st ++ [s!"completed {if done then 1 else 0}"])
+      | none => if alg == "hdiff" || alg == "vector" then "fuel" else "bad-op"
+    | _, _, _ => "bad-op"
+  | _ => "bad-op"
+
+end AcordStream
+
 def step (_ : Unit) (line : String) : Unit × String :=
   let ts := tokens line
   match ts with
   | [] => ((), "")
   | "refine" :: rest => ((), refineOp rest)
+  | "acord" :: rest => ((), acordOp rest)
   | op :: rest =>
     match rest.mapM num? with
     | none => ((), "bad-op")
